@@ -1625,6 +1625,17 @@ func TestVerifC16(t *testing.T) {
 	for _, g := range grid {
 		cases = append(cases, c16case{Tool: "obimultiplex", Atoms: []string{}, CPU: g.cpu, Batch: g.batch})
 	}
+	if f := os.Getenv("VERIF_C16_ONLY"); f != "" { // debugging aid: restrict to the cases whose id matches
+		re := regexp.MustCompile(f)
+		var sel []c16case
+		for _, c := range cases {
+			if re.MatchString(c.id()) {
+				sel = append(sel, c)
+			}
+		}
+		cases = sel
+		r.Cap("VERIF_C16_ONLY=" + f)
+	}
 	r.Bound("cases_total", len(cases))
 
 	par := 16
